@@ -49,7 +49,8 @@ def _run_worker(prop, shard, scratch, idx, timeout):
     t0 = time.time()
     try:
         p = subprocess.run(
-            [sys.executable, '-m', 'vmon.worker', prop, sp, op],
+            [sys.executable] + list((shard.get('config') or {}).get(
+                'pyflags', [])) + ['-m', 'vmon.worker', prop, sp, op],
             cwd=env.VERIF, env=wenv, timeout=timeout,
             stdout=subprocess.PIPE, stderr=subprocess.STDOUT)
         rc, out = p.returncode, p.stdout.decode('utf-8', 'replace')[-3000:]
@@ -100,7 +101,7 @@ def _main(mod, prop, tier, seed, jobs, replay, scratch, t0):
             w = json.load(f)
         shards = [{'name': 'replay', 'tier': w.get('tier', tier),
                    'seed': w.get('seed', seed),
-                   'replay_case': w['case'],
+                   'replay_case': w['case'], 'config': w.get('config'),
                    'legacy': w.get('legacy')}]
     else:
         shards = mod.shards(tier, seed)
